@@ -40,6 +40,18 @@ CHECKS = {
             'harness, with the label as conditioning side; a directed class reaches hash-aliasing code distances.',
             'Trusted: reference models; scipy pearsonr / sklearn AMI as the named heuristics. Surrogate heuristics out of scope.',
             'DESIGN.md §3 C05'),
+    'C06': ('Hypothesis column sets x modes x heuristics x caps: validity predicate on the emitted triplets',
+            'Exploration: generated column sets (1-40 names incl. unicode, spaces, relation-feature names, label anywhere) are scored '
+            'through mixed_rank_graph; the triplet list must mention only batch columns, be closed under mirroring with identical '
+            'scores (Constant: each pair once, 0.0), stay inside the requested pair set, respect the cap exactly, and contain every '
+            'requested pair whenever the cap does not bind.',
+            'Duplicated candidates and self pairs of relation features are tolerated (statement speaks of sets / is silent).',
+            'DESIGN.md §3 C06'),
+    'C07': ('model-based histories (Hypothesis program cases) + exhaustive short histories; invariants after every batch',
+            'Exploration: generated batch histories with changing caps are replayed against prior_combinations_sample (directly and '
+            'through mixed_rank_graph) and a Counter model; after every batch: size = min(cap, len), distinct, all candidates, '
+            'least-evaluated-first, max-min <= 1, reported counts = model. All cap sequences of length <=5 over <=4 candidates are '
+            'enumerated.', 'Tie order among equally counted candidates is not constrained.', 'DESIGN.md §3 C07'),
 }
 
 NOT_YET = 'check not built yet in this commit (work in progress; planned in DESIGN.md §3)'
